@@ -35,6 +35,28 @@ def start_models():
     return _cache
 
 
+_extra = {}
+
+
+def extra_models():
+    """Further corpus models (the repository's own test models), kept apart from start_models() so that the case streams
+    of the checks that draw from start_models() stay what they were.  name -> model."""
+    if _extra:
+        return _extra
+    import importlib.util
+    from pharmpy.modeling import read_model
+
+    root = Path(importlib.util.find_spec("pharmpy").origin).resolve().parents[2] / "tests" / "testdata" / "nonmem"
+    for name, rel in (("mox2", "models/mox2.mod"), ("mox1", "models/mox1.mod")):
+        try:
+            m = read_model(root / rel)
+            _ = m.statements, m.dataset
+            _extra[name] = m
+        except Exception:
+            pass
+    return _extra
+
+
 def gen_start_model(rng, workdir: Path):
     """A generated ADVAN control stream (stratum A) read by pharmpy, as a more diverse start model."""
     from pharmpy.modeling import read_model
